@@ -511,9 +511,19 @@ class World:
         if sl is None or not model.valid_relabel(sl.model, mapping):
             self.stats["skipped"] += 1
             return
+        def arg():
+            if not op.get("reuse"):
+                return dict(mapping)
+            # the caller keeps one dictionary and refills it for every call
+            self.stats["fault:F3:mapping-dictionary-reused"] += 1
+            if not hasattr(self, "_caller_map"):
+                self._caller_map = {}
+            self._caller_map.clear()
+            self._caller_map.update(mapping)
+            return self._caller_map
         if op.get("copy", True):
             self._derive(op, [s], op["dst"], lambda m: model.relabel(m, mapping),
-                         lambda g: g.relabel_atoms(dict(mapping), copy=True), "relabel", {"C11"})
+                         lambda g: g.relabel_atoms(arg(), copy=True), "relabel", {"C11"})
             return
         # in place
         if sl.locks:
@@ -523,7 +533,7 @@ class World:
         if self.real_enabled:
             R = self.R
             try:
-                ret = R.guarded(sl.real.relabel_atoms, dict(mapping), copy=False)
+                ret = R.guarded(sl.real.relabel_atoms, arg(), copy=False)
             except R.CallTimeout:
                 self.report({"C11"}, "relabel_inplace|hang|" + type(sl.real).__name__, "", taint=[s])
                 return
@@ -599,6 +609,63 @@ class World:
 
         self._derive(op, srcs, op["dst"], lambda *ms: model.compose(kind, list(ms)),
                      mk_real, "compose", {"C17"})
+
+    def op_restore_damaged(self, op):
+        """F6: the stored text comes back damaged (a descriptor class name
+        garbled, a list one entry short, the tail cut off).  What restoring
+        such a text does is not judged and a result is thrown away; restoring
+        intact texts afterwards is judged as always."""
+        t = self.slots.get(op["src"])
+        if t is None or t.kind != "text":
+            self.stats["skipped"] += 1
+            return
+        how = op.get("how", "class")
+        self.stats["fault:F6:damaged-text:" + how] += 1
+        if not self.real_enabled or "text" not in t.data:
+            return
+        import re
+        txt = t.data["text"]
+        k = op.get("at", 0)
+        if how == "class":
+            hits = [mm for mm in re.finditer("|".join(geom.CLASSES), txt)]
+            if hits:
+                mm = hits[-1 - (k % len(hits))] if k % 2 else hits[-1]
+                txt = txt[:mm.start()] + "Bogus" + txt[mm.end():]
+        elif how == "short":
+            hits = [mm for mm in re.finditer(r"\[(?:-?\d+|null)(?:, ?(?:-?\d+|null)){3,6}\]", txt)]
+            if hits:
+                mm = hits[-1 - (k % len(hits))] if k % 2 else hits[-1]
+                inner = mm.group(0)[1:-1].split(",")
+                txt = txt[:mm.start()] + "[" + ",".join(inner[:-1]) + "]" + txt[mm.end():]
+        else:
+            txt = txt[:max(1, len(txt) - 1 - k % max(1, len(txt) // 2))]
+        R = self.R
+        try:
+            R.guarded(R.EXP.JSONHandler.json_deserialize, txt)
+        except BaseException as e:  # noqa: BLE001
+            if isinstance(e, (KeyboardInterrupt, SystemExit)):
+                raise
+        self.check_others(set(), "restore_damaged")
+
+    def op_noise(self, op):
+        """other parts of the library used earlier in the same process (XYZ
+        text read, geometry written): results thrown away, nothing judged"""
+        self.stats["fault:noise:" + op.get("what", "xyz")] += 1
+        if not self.real_enabled:
+            return
+        R = self.R
+        labels = op.get("labels") or ["C", "H"]
+
+        def run():
+            from stereomolgraph.coords import Geometry
+            lines = [str(len(labels)), "noise"] + [f"{l} {i * 1.1:.3f} {(i % 3) * 0.7:.3f} {(i % 2) * 0.5:.3f}" for i, l in enumerate(labels)]
+            geo = Geometry.from_xyz("\n".join(lines) + "\n")
+            geo.xyz_str()
+        try:
+            R.guarded(run)
+        except BaseException as e:  # noqa: BLE001
+            if isinstance(e, (KeyboardInterrupt, SystemExit)):
+                raise
 
     def op_bad_derive(self, op):
         """F1 for derivations: an ill-formed request (a list of pieces that
